@@ -89,9 +89,23 @@ class Raise(Exception):
     """The reference's own 'recursion limit exceeded'."""
 
 
-def is_embedded_desc(sel: Dict[str, Any]) -> bool:
+def _embedded(sel: Dict[str, Any]):
+    """(inner descendant segment, threshold) for [?@..x] (threshold None: existence) and
+    [?count(@..x) > K]; None for anything else."""
     e = sel.get("e") if sel.get("t") == "filter" else None
-    return bool(e and e.get("t") == "rel" and len(e["q"]["segs"]) == 1 and e["q"]["segs"][0]["k"] == "desc")
+    if not e:
+        return None
+    if e.get("t") == "rel" and len(e["q"]["segs"]) == 1 and e["q"]["segs"][0]["k"] == "desc":
+        return e["q"]["segs"][0], None
+    if e.get("t") == "cmp" and e["op"] == ">" and e["l"].get("t") == "call" and e["l"]["name"] == "count" and e["r"].get("t") == "lit":
+        a = e["l"]["args"][0]
+        if a.get("t") == "rel" and len(a["q"]["segs"]) == 1 and a["q"]["segs"][0]["k"] == "desc":
+            return a["q"]["segs"][0], e["r"]["v"]
+    return None
+
+
+def is_embedded_desc(sel: Dict[str, Any]) -> bool:
+    return _embedded(sel) is not None
 
 
 def apply_child_seg(seg: Dict[str, Any], nodes: List[Tuple[Tuple, Any]], limit: float = INF, stats: Any = None) -> List[Tuple[Tuple, Any]]:
@@ -101,7 +115,7 @@ def apply_child_seg(seg: Dict[str, Any], nodes: List[Tuple[Tuple, Any]], limit: 
             if is_embedded_desc(sel):
                 # [?@..x]: the embedded descendant segment is applied to every child
                 # (in order); a child nested deeper than the limit raises
-                inner = sel["e"]["q"]["segs"][0]
+                inner, threshold = _embedded(sel)
                 for k, c in children(v):
                     if stats is not None:
                         stats["max_nesting"] = max(stats["max_nesting"], nesting(c))
@@ -112,7 +126,7 @@ def apply_child_seg(seg: Dict[str, Any], nodes: List[Tuple[Tuple, Any]], limit: 
                         raise Raise
                     if status == "work-cap":
                         raise ValueError("work cap")
-                    if res:
+                    if (len(res) > threshold) if threshold is not None else bool(res):
                         out.append((loc + (k,), c))
             else:
                 out.extend(apply_sel(sel, loc, v))
